@@ -702,11 +702,13 @@ class IRGenerator:
         Converts each struct, union, and route from a forward reference to a
         full definition.
         """
+        # do annotations before everything else, since populating aliases
+        # and datatypes involves setting annotations. do them for all
+        # namespaces first, since an annotation can be applied in a namespace
+        # that imports the one it's defined in.
         for namespace in self.api.namespaces.values():
             env = self._get_or_create_env(namespace.name)
 
-            # do annotations before everything else, since populating aliases
-            # and datatypes involves setting annotations
             for annotation in namespace.annotations:
                 if isinstance(annotation, CustomAnnotation):
                     loc = annotation._ast_node.lineno, annotation._ast_node.path
@@ -737,6 +739,9 @@ class IRGenerator:
                         )
 
                     annotation.set_attributes(annotation_type)
+
+        for namespace in self.api.namespaces.values():
+            env = self._get_or_create_env(namespace.name)
 
             for alias in namespace.aliases:
                 data_type = self._resolve_type(env, alias._ast_node.type_ref)
